@@ -354,14 +354,32 @@ Definition provider_errs (pf : bool) (cur : gen) : list err :=
 Definition collector_shutdown (pf : bool) (cur : gen) : list ev * list err :=
   let '(ld, ed) := gen_shutdown cur in (ld, provider_errs pf cur ++ ed).
 
+(* the ways Run's control loop is left (collector.go Run, the select):
+     configProvider.Watch() delivers an ERROR            -> logged, break LOOP
+     an error on asyncErrorChannel                        -> logged, break LOOP
+     a signal other than SIGHUP on signalsChannel         -> break LOOP
+     shutdownChan (Collector.Shutdown())                  -> break LOOP
+     ctx.Done()                                           -> return col.shutdown(context.Background())
+   after LOOP: return col.shutdown(ctx).  Every one of them ends in col.shutdown. *)
+Inductive trigger : Type := TWatchError | TAsyncError | TSignalTerm | TShutdownReq | TCtxDone.
+
+Definition leave_loop (t : trigger) (pf : bool) (cur : gen) : list ev * list err :=
+  match t with
+  | TWatchError => collector_shutdown pf cur
+  | TAsyncError => collector_shutdown pf cur
+  | TSignalTerm => collector_shutdown pf cur
+  | TShutdownReq => collector_shutdown pf cur
+  | TCtxDone => collector_shutdown pf cur
+  end.
+
 (* [cur] is running (its Start produced [ls_cur] without error); [rest] = the configurations of
-   the reload events still to come, then a stop request (Shutdown(), signal, asynchronous error,
-   cancelled context: all end in col.shutdown).
+   the reload events still to come (config-watch event without error, or SIGHUP), then the trigger
+   [t] that makes Run leave its loop.
    reloadConfiguration: the retiring service is shut down; then configProvider.Get re-resolves, which
    first closes the previous retrieval: if that fails no new service is built and Run returns. *)
-Fixpoint reload_loop (pf : bool) (cur : gen) (ls_cur : list ev) (rest : list gen) : list (list ev * list err) :=
+Fixpoint reload_loop (t : trigger) (pf : bool) (cur : gen) (ls_cur : list ev) (rest : list gen) : list (list ev * list err) :=
   match rest with
-  | [] => let '(ld, ed) := collector_shutdown pf cur in [(ls_cur ++ ld, ed)]
+  | [] => let '(ld, ed) := leave_loop t pf cur in [(ls_cur ++ ld, ed)]
   | nxt :: rest' =>
       let '(ld, ed) := gen_shutdown cur in
       match ed with
@@ -372,19 +390,19 @@ Fixpoint reload_loop (pf : bool) (cur : gen) (ls_cur : list ev) (rest : list gen
           let '(ls, es) := gen_start nxt in
           match es with
           | _ :: _ => let '(ld2, ed2) := gen_shutdown nxt in [(ls_cur ++ ld, []); (ls ++ ld2, es ++ ed2)]
-          | [] => (ls_cur ++ ld, []) :: reload_loop pf nxt ls rest'
+          | [] => (ls_cur ++ ld, []) :: reload_loop t pf nxt ls rest'
           end
       end
   end.
 
-Definition collector_run_reload (pf : bool) (gens : list gen) : list (list ev * list err) :=
+Definition collector_run_reload (t : trigger) (pf : bool) (gens : list gen) : list (list ev * list err) :=
   match gens with
   | [] => []
   | g0 :: rest =>
       let '(ls, es) := gen_start g0 in
       match es with
       | _ :: _ => let '(ld, ed) := gen_shutdown g0 in [(ls ++ ld, es ++ ed)]
-      | [] => reload_loop pf g0 ls rest
+      | [] => reload_loop t pf g0 ls rest
       end
   end.
 
